@@ -23,6 +23,7 @@ ASSUMPTIONS = ["oracle: closed-form integral of |linear|^p per segment written w
                "segments, as produced by averaging landscapes, are part of the domain)",
                "p <= 20 and |y|^(p+1) inside double range: larger p is an arithmetic-range question, not this property",
                "the bottleneck-stability clause is only judged when the trace hook reports no repeated-bar shortcut (C03 finding)"]
+REQUIRED_NOTES = ["large-cases"]
 TECHNIQUE = "runtime monitoring: postcondition + metamorphic monitor on p_norm / sup_norm with a closed-form integral oracle"
 
 PS = [1, 2, 2, 3, 4, 5, 10, 1.5, 2.5, math.pi, 7.3]
@@ -224,6 +225,9 @@ def run_case(ctx, k, rng):
             ctx.exception("related call returns", e, sub=sub, p=p)
     else:
         num = int(rng.choice([5, 9, 17, 33]))
+        if k % 89 == 7:
+            num = int(rng.choice([4097, 5000, 8193, 10001, 20000]))      # fine grids: thousands of samples per depth
+            ctx.note("large-cases")
         start, stop = float(rng.integers(-3, 3)), float(rng.integers(4, 12))
         style = str(rng.choice(["values", "diagram", "difference"]))
         try:
